@@ -783,6 +783,17 @@ func (vc *VC) evalCall(e *SExpr, env *Env) *Val {
 				vc.evalFail(env, "ptrtag needs a type")
 			}
 			return &Val{T: fmt.Sprintf("%d", vc.typeTag(types.NewPointer(tv.TypeV))), Ty: MathInt}
+		case "arrptr":
+			// arrptr(s): the reference of the array window that (*[N]T)(s)
+			// denotes - the array itself when s starts at offset 0
+			x := vc.eval(args[0], env)
+			if _, ok := x.Ty.Underlying().(*types.Slice); !ok {
+				vc.evalFail(env, "arrptr() needs a slice")
+			}
+			if !vc.declared["sl2arr"] {
+				vc.declare("sl2arr", "(declare-fun sl2arr (Int Int) Int)")
+			}
+			return &Val{T: fmt.Sprintf("(ite (= (s_off %s) 0) (s_arr %s) (sl2arr (s_arr %s) (s_off %s)))", x.T, x.T, x.T, x.T), Ty: MathInt}
 		case "elemat":
 			// elemat(T, a, j): element j (absolute index) of the array with
 			// reference a among the arrays holding T values - lets a contract
